@@ -183,8 +183,8 @@ def nontrivial(r, hooks):
 def run(chk: Check) -> int:
     chk.prove(["theories/Props/C04.vo", "theories/Run/LNDRun.vo"], THEOREMS)
     unfixed5, unfixed12 = probe_f5(), probe_f12()
-    ncases = 220 if chk.quick else 2000
-    maxlen = 22 if chk.quick else 60
+    ncases = 220 if chk.quick else 900
+    maxlen = 22 if chk.quick else 40
     cases, metas = [], []
     hist = {"op": {}, "dim": {}, "domain": {}, "loss": {}, "vdim": {}, "func": {}}
     tot = {"ops": 0, "worst_simplex_checked": 0, "subtriangulations_checked": 0, "losses_recomputed": 0, "asks": 0,
@@ -230,7 +230,8 @@ def run(chk: Check) -> int:
         h = LN.gen_history(rng, maxlen, cfg["dim"])
         r, hooks, term = run_case(cfg, hist=h, unfixed5=unfixed5, unfixed12=unfixed12)
         add(cfg, r, hooks, term, f"seed{chk.seed}/{k}")
-    mism, legal, errors = chk.coq_cases("cases", PREAMBLE, "case", cases, "check", "is_legal", shard=14)
+    # a shard is kept below ~1 MB of Gallina: coqc's time and memory grow faster than linearly with the file size
+    mism, legal, errors = chk.coq_cases("cases", PREAMBLE, "case", cases, "check", "is_legal", shard=14 if chk.quick else 6)
     for e in errors:
         chk.broke("correspondence", "Model/LND.v cases could not be evaluated", e)
     for c, s in mism[:5]:
